@@ -71,6 +71,11 @@ QGroup2 == {Q(<<T(cK, ""), T(cS, ""), T(Agg("count", Star), "c"), T(Agg("sum", c
                wh \in {NoE, Bin("gt", cV, Const(IntV(0)))},
                gr \in {<<RefE(cK), RefE(cS)>>, <<RefIdx(2), RefIdx(1)>>, <<>>},
                hv \in {NoE}}
+\* the same target named twice in GROUP BY (by position and by name, twice by expression): still one key, one column
+QGroupDup == {Q(<<T(cK, "kk"), T(cS, "ss"), T(a, "a")>>, NoE, gr, NoE, <<>>, <<>>, FALSE, -1) :
+                 a \in {Agg("count", Star), Agg("sum", cV)},
+                 gr \in {<<RefIdx(1), RefE(Col("kk")), RefIdx(2)>>, <<RefE(cK), RefE(cK), RefE(cS)>>, <<RefIdx(1), RefIdx(2), RefIdx(1)>>,
+                         <<RefE(cS), RefIdx(1), RefE(Col("ss"))>>, <<RefIdx(2), RefIdx(2), RefIdx(1)>>}}
 QHaving == {Q(<<T(cK, ""), T(Agg("sum", cV), "sv")>>, NoE, <<RefE(cK)>>, hv, od, <<>>, FALSE, -1) :
                hv \in {Bin("gt", Agg("count", Star), Const(IntV(1))), Bin("gt", Agg("sum", cV), Const(IntV(1))),
                        Un("isnull", Agg("min", cV)), Agg("sum", cV)},
@@ -153,10 +158,10 @@ QInvalid == {
 Queries ==
     CASE QuerySet = "plain" -> QPlain
       [] QuerySet = "order" -> QOrder \cup QDistinct \cup QDistinctAgg
-      [] QuerySet = "group" -> QGroup1 \cup QGroup2 \cup QHaving \cup QHidden \cup QNoRows
+      [] QuerySet = "group" -> QGroup1 \cup QGroup2 \cup QHaving \cup QHidden \cup QNoRows \cup QGroupDup
       [] QuerySet = "pivot" -> QPivot \cup QPivotInvalid
       [] QuerySet = "invalid" -> QInvalid
-      [] OTHER -> QPlain \cup QOrder \cup QDistinct \cup QDistinctAgg \cup QGroup1 \cup QGroup2 \cup QHaving \cup QHidden \cup QNoRows \cup QPivot \cup QPivotInvalid \cup QInvalid
+      [] OTHER -> QPlain \cup QOrder \cup QDistinct \cup QDistinctAgg \cup QGroupDup \cup QGroup1 \cup QGroup2 \cup QHaving \cup QHidden \cup QNoRows \cup QPivot \cup QPivotInvalid \cup QInvalid
 
 -----------------------------------------------------------------------------
 VARIABLES code, q, phase, i, keys, groups, rows, passhi, out, table, cq
